@@ -141,13 +141,23 @@ theorem C03_fault_duplicate_key (c : Cfg) (props : List PropDef) (p : PropDef) (
 /-- more than one key in a oneof; a `!type` that contradicts the key present; a `!type` naming no
 member — all rejected by the post-checks, which fail the whole oneof -/
 theorem C03_fault_oneof (ops : List PropDef) :
-    (∀ a b rest ct, ∃ e, oneofPost ops (a :: b :: rest) ct = .err e) ∧
-    (∀ k name, k ≠ name → ∃ e, oneofPost ops [k] (some name) = .err e) ∧
-    (∀ name, findProp ops name = none → ∃ e, oneofPost ops [] (some name) = .err e) ∧
-    (∀ st found ct term, (∃ e, oneofPost ops found ct = .err e) →
+    (∀ a b rest ct m, ∃ e, oneofPost ops (a :: b :: rest) ct m = .err e) ∧
+    (∀ k name m, k ≠ name → ∃ e, oneofPost ops [k] (some name) m = .err e) ∧
+    (∀ name m, findProp ops name = none → ∃ e, oneofPost ops [] (some name) m = .err e) ∧
+    (∀ st found ct term, (∃ e, oneofPost ops found ct st.m = .err e) →
       ∃ e, finishOneof ops (.ok (st, found, ct, term)) = .err e) :=
   ⟨oneof_multiple_keys ops, oneof_type_mismatch ops, oneof_type_unknown ops,
    finishOneof_post_err ops⟩
+
+/-- more than one member of a **proto** oneof (members of an anonymous proto oneof are ordinary
+optional properties of the J5 object; members of a wrapper / exposed oneof likewise live in one
+proto oneof): a non-null value for a member while a different member of the same proto oneof is set
+in the message is rejected, for every field kind and every value (after repair 25c97b7: protobuf
+used to drop the first member silently — `{"aOneofString":"x","aOneofFloat":1}` was accepted) -/
+theorem C03_fault_proto_oneof_second_member (c : Cfg) (props : List PropDef) (p : PropDef) (t : PTree)
+    (st : PS) (hbusy : groupBusy props p st.m = true) (hnn : t ≠ .null) :
+    ∃ e, decProp c props p t st = .err e :=
+  proto_oneof_second_member c props p t st hbusy hnn
 
 /-- every key of a oneof body other than `!type` is counted (`foundKeys`), so a body with two
 keys reaches the post-checks with at least two entries -/
@@ -191,6 +201,13 @@ example : dateFromString (ascii "2024-02-29") = some (2024, 2, 29) := by decide
 example : wrongType .bool (.str (ascii "true")) = true := by decide
 example : ((b64Encode [0xfb, 0xff]).map stdToUrl) = ascii "-_8=" := by decide
 example : stripPad (b64Encode [0xfb, 0xff]) = ascii "+/8" := by decide
+/-- `groupBusy` holds in the witness of 25c97b7: `aOneofString` (field 100) is set, `aOneofFloat`
+(field 102) of the same proto oneof arrives -/
+example : groupBusy
+    [{ jsonName := ascii "aOneofString", path := [100], pres := .opt, field := .scalar .string, group := some 0 },
+     { jsonName := ascii "aOneofFloat", path := [102], pres := .opt, field := .scalar .float32, group := some 0 }]
+    { jsonName := ascii "aOneofFloat", path := [102], pres := .opt, field := .scalar .float32, group := some 0 }
+    [(100, .str (ascii "x"))] = true := by decide
 /-- an enum whose option's short name starts with the prefix (the class repaired by 7e19d0c) -/
 example : enumOptionByName (ascii "T_") [(ascii "X", 1), (ascii "T_X", 2)] (ascii "T_X") = some 2 := by
   decide
